@@ -40,7 +40,7 @@ var Shapes = []string{"rectangle", "square", "page", "parallelogram", "document"
 var SimpleShapes = []string{"rectangle", "square", "page", "parallelogram", "document", "cylinder", "queue", "package", "step",
 	"callout", "stored_data", "person", "diamond", "oval", "circle", "hexagon", "cloud", "c4-person"}
 
-var Colors = []string{"red", "blue", "#fff", "#00ff00", "#12345678", "honeydew", "transparent", "linear-gradient(#fff, #000)", "N1", "B3", "AA4", "AB5"}
+var Colors = []string{"red", "blue", "#fff", "#00ff00", "#12345678", "honeydew", "transparent", "linear-gradient(#fff, #000)", "PapayaWhip", "#ABCDEF"}
 var Arrowheads = []string{"none", "arrow", "unfilled-triangle", "triangle", "diamond", "circle", "box", "cross", "cf-one", "cf-many", "cf-one-required", "cf-many-required"}
 var Arrows = []string{"->", "<-", "--", "<->"}
 
@@ -54,6 +54,9 @@ type pg struct {
 	vars     []string
 	classes  []string
 	nEdges   int
+	depth    int
+	rootD    int // depth of the current board's top-level statements
+	edges    []string // declared "src arrow dst" at depth 0, for index references
 }
 
 // Program renders one D2 program for the options.
@@ -119,7 +122,7 @@ func (p *pg) keyPath() string {
 	for i := range parts {
 		parts[i] = p.name()
 	}
-	if p.r.P(p.o.Underscore) {
+	if p.depth > 0 && p.r.P(p.o.Underscore) || p.depth == 0 && p.r.P(p.o.Underscore*0.1) {
 		parts[0] = "_"
 	}
 	return strings.Join(parts, ".")
@@ -214,13 +217,14 @@ func (p *pg) blockString() string {
 	}
 	if r.P(0.2) {
 		bars += "`"
-		return bars + tag + " " + body + " " + "`" + bars[:len(bars)-1]
+		return bars + tag + " " + body + " " + bars[1:] + "|"
 	}
 	return bars + tag + " " + body + " " + bars
 }
 
 func (p *pg) stmt(d int, scope string, allowMap bool) {
 	r, o := p.r, p.o
+	p.depth = d
 	if r.P(o.Comments * 0.5) {
 		p.ind(d)
 		if r.P(0.2) {
@@ -262,11 +266,22 @@ func (p *pg) stmt(d int, scope string, allowMap bool) {
 		if r.P(0.2) {
 			n = r.Range(3, 4)
 		}
+		var first, arrow, second string
 		for i := 0; i < n; i++ {
+			a := Pick(r, Arrows)
 			if i > 0 {
-				p.sb.WriteString(" " + Pick(r, Arrows) + " ")
+				p.sb.WriteString(" " + a + " ")
 			}
-			p.sb.WriteString(p.keyPath())
+			k := p.keyPath()
+			if i == 0 {
+				first = k
+			} else if i == 1 {
+				arrow, second = a, k
+			}
+			p.sb.WriteString(k)
+		}
+		if d == p.rootD && n == 2 && !strings.HasPrefix(first, "_") && !strings.HasPrefix(second, "_") {
+			p.edges = append(p.edges, first+" "+arrow+" "+second)
 		}
 		p.nEdges++
 		if r.P(o.Labels) {
@@ -304,7 +319,15 @@ func (p *pg) stmt(d int, scope string, allowMap bool) {
 		case 1:
 			p.sb.WriteString(p.keyPath() + "." + p.kw("style") + "." + Pick(r, []string{"fill", "opacity", "stroke"}) + ": null")
 		case 2:
-			p.sb.WriteString(fmt.Sprintf("(%s %s %s)[%d]: null", p.name(), Pick(r, Arrows), p.name(), r.Intn(2)))
+			if d == p.rootD && len(p.edges) > 0 && r.P(0.9) {
+				i := r.Intn(len(p.edges))
+				p.sb.WriteString("(" + p.edges[i] + ")[0]: null")
+				p.edges = append(p.edges[:i:i], p.edges[i+1:]...)
+			} else if r.P(0.85) {
+				p.sb.WriteString(p.keyPath() + ": " + p.kwv("null"))
+			} else {
+				p.sb.WriteString(fmt.Sprintf("(%s %s %s)[%d]: null", p.name(), Pick(r, Arrows), p.name(), r.Intn(2)))
+			}
 		default:
 			p.sb.WriteString(p.keyPath() + "." + p.kw(Pick(r, []string{"label", "shape", "icon", "tooltip"})) + ": null")
 		}
@@ -316,7 +339,19 @@ func (p *pg) stmt(d int, scope string, allowMap bool) {
 		if r.P(0.2) {
 			idx = "*"
 		}
-		p.sb.WriteString(fmt.Sprintf("(%s %s %s)[%s]", p.name(), Pick(r, Arrows), p.name(), idx))
+		if d == p.rootD && len(p.edges) > 0 && r.P(0.9) {
+			if idx != "*" && r.P(0.9) {
+				idx = "0"
+			}
+			p.sb.WriteString("(" + Pick(r, p.edges) + ")[" + idx + "]")
+		} else if r.P(0.85) {
+			// nothing to refer to: declare a connection instead
+			p.sb.WriteString(p.name() + " " + Pick(r, Arrows) + " " + p.name())
+			p.eol()
+			return
+		} else {
+			p.sb.WriteString(fmt.Sprintf("(%s %s %s)[%s]", p.name(), Pick(r, Arrows), p.name(), idx))
+		}
 		switch r.Intn(3) {
 		case 0:
 			p.sb.WriteString(": " + p.value())
@@ -327,7 +362,7 @@ func (p *pg) stmt(d int, scope string, allowMap bool) {
 		}
 		p.eol()
 	case 7: // array
-		k := p.kw(Pick(r, []string{"class", "constraint", "x", "classes"}))
+		k := p.kw(Pick(r, []string{"class", "class", "x"}))
 		p.sb.WriteString(p.keyPath() + "." + k + ": [")
 		for i := 0; i < r.Range(0, 3); i++ {
 			if i > 0 {
@@ -707,9 +742,17 @@ func (p *pg) boards(d int) {
 		for i := 0; i < r.Range(1, 3); i++ {
 			p.ind(d + 1)
 			p.sb.WriteString(p.name() + ": {\n")
+			savedEdges, savedRoot := p.edges, p.rootD
+			if k == "layers" {
+				p.edges = nil
+			} else {
+				p.edges = append([]string{}, p.edges...)
+			}
+			p.rootD = d + 2
 			for j := 0; j < r.Range(0, 4); j++ {
 				p.stmt(d+2, "", true)
 			}
+			p.edges, p.rootD = savedEdges, savedRoot
 			if d < 1 && r.P(0.25) {
 				p.boards(d + 2)
 			}
